@@ -123,6 +123,10 @@ pub struct Scenario {
     pub permute_redeemers: u64,
     pub redeemers_as_map: bool,
     pub run_phase_one: bool,
+    /// Order in which the body lists its mint policies, withdrawals, voters and inputs (the
+    /// ledger's indices always follow the sorted order, whatever order the body was written in).
+    #[serde(default)]
+    pub permute_body: u64,
 }
 
 // ------------------------------------------------------------------------------------------
@@ -392,6 +396,16 @@ pub fn assemble(sc: &Scenario) -> Result<Assembled, String> {
             script: *si,
             datum: None,
         });
+    }
+
+    // The redeemer indices above follow the canonical (sorted) order; the body itself may list the
+    // same entries in any order.
+    if sc.permute_body != 0 {
+        let mut r = Rng::new(sc.permute_body);
+        r.shuffle(&mut mint);
+        r.shuffle(&mut withdrawals);
+        r.shuffle(&mut voters);
+        r.shuffle(&mut inputs);
     }
 
     // ---- faults: drop one needed piece / add an extraneous redeemer
@@ -1109,6 +1123,7 @@ fn gen_scenario(rng: &mut Rng) -> Scenario {
         permute_redeemers: 0,
         redeemers_as_map: rng.chance(1, 2),
         run_phase_one: rng.chance(3, 4),
+        permute_body: if rng.chance(1, 2) { rng.next_u64() | 1 } else { 0 },
     }
 }
 
@@ -1164,6 +1179,7 @@ fn minimise(sc: &Scenario, classes: &[String]) -> Scenario {
     }
     for f in [
         |c: &mut Scenario| c.plain_inputs = 0,
+        |c: &mut Scenario| c.permute_body = 0,
         |c: &mut Scenario| c.validity = (None, None),
         |c: &mut Scenario| c.protocol = None,
         |c: &mut Scenario| c.redeemers_as_map = false,
